@@ -269,7 +269,7 @@ pub fn run(tier: Tier) -> ! {
         rep_instance(2200, "bc"),
         range_instance(2, 150),
         range_instance(100, 180),
-        range_instance(0, 1000),
+        range_instance(0, 400),
         keywords_instance(1000, 4),
         keywords_ident_instance(1300, 4),
         modes_chain_instance(300),
